@@ -195,6 +195,15 @@ func c17Run(c lib.Case, env *lib.Env) lib.Result {
 		for _, i := range sub {
 			wl[int64(i)] = true
 		}
+		if idx%2 == 1 {
+			// the other natural way to build the map: an entry for every index, false for the unwanted ones
+			for i := 0; i < n; i++ {
+				if !wl[int64(i)] {
+					wl[int64(i)] = false
+				}
+			}
+			res.Add("whitelists_with_explicit_false_entries", 1)
+		}
 		if !nilWhitelist {
 			p.SetSourceIndexWhitelist(wl)
 		}
